@@ -499,6 +499,7 @@ def new_symbolic_queue(E, cls, name, maxsize=0):
     E.path.add(z3.ForAll([i], z3.Select(arr, i) <= 0))
     q = SObj(cls, {'_sym': dict(arr=arr, h=h, t=t, name=nm, arr0=arr, h0=h, t0=t), 'maxsize': maxsize,
                    '_getters': [], '_putters': [], '_unfinished_tasks': E.fresh_int(nm + '.unfinished', 0)})
+    q.is_shape = True       # part of a contract's pre-state shape (see Engine.getattr)
     return q
 
 
